@@ -27,14 +27,20 @@ class Proc:
     def key_pattern(self):
         k = self.name
         for port, _ in self.ins:
-            k += " {i:%s%s}" % (port, "|join:," if port in self.join else "")
+            k += " {i:%s%s}" % (port, ("|join:" + self.join[port]) if port in self.join else "")
         for port, _ in self.pars:
             k += " {p:%s}" % port
         return k
 
     def pattern(self):
         key = self.key_pattern()
-        ins = " ".join("{i:%s%s}" % (port, ("|join:" + self.join[port]) if port in self.join else "") for port, _ in self.ins)
+        def iph(port):
+            if port not in self.join:
+                return "{i:%s}" % port
+            sep = self.join[port]
+            ph = "{i:%s|join:%s}" % (port, sep)
+            return ph if sep == " " else '$(echo "%s" | tr "%s" " ")' % (ph, sep)
+        ins = " ".join(iph(port) for port, _ in self.ins)
         line = self.tok + "".join(" {p:%s}" % port for port, _ in self.pars)
         if self.kind == "write":
             body = "echo " + line
@@ -82,6 +88,8 @@ class Proc:
         for port, src in self.pars:
             if src[0] == "U":
                 s += " %s U %d" % (hx(port), src[1])
+            elif src[0] == "N":
+                s += " %s N" % hx(port)
             else:
                 s += " %s V %d" % (hx(port), len(src[1])) + "".join(" " + hx(v) for v in src[1])
         s += " %d" % len(self.outs)
@@ -98,6 +106,7 @@ class Spec:
         self.nodes = []       # ("SRC", name, paths) | ("PSRC", name, vals) | ("S2S", name, up, upport) | ("PROC", Proc) | ("RAW", line)
         self.files = {}       # pre-existing files: path -> content
         self.runto = None
+        self.runto_mode = "N"     # N: RunTo(names)  R: RunToRegex  P: RunToProcs
 
     def add(self, node):
         self.nodes.append(node)
@@ -132,7 +141,7 @@ class Spec:
             else:
                 out.append(n[1])
         if self.runto is not None:
-            out.append("RUNTO " + " ".join(str(i) for i in self.runto))
+            out.append("RUNTO " + self.runto_mode + " " + " ".join(str(i) for i in self.runto))
         if with_files:
             for p, c in sorted(self.files.items()):
                 out.append("FILE %s %s" % (hx(p), hx(c)))
@@ -195,12 +204,28 @@ def task_key(mt):
 
 
 def norm_trace_key(key):
-    """the traced key has ../ prefixed to every relative in-path (and to every member of a joined port)"""
-    toks = key.split(" ")
-    out = [toks[0]]
-    for t in toks[1:]:
-        out.append(",".join(m[3:] if m.startswith("../") else m for m in t.split(",")))
-    return " ".join(out)
+    """the traced key has ../ prefixed to every relative in-path (and to every member of a joined port);
+    streamed inputs appear under their FIFO name"""
+    key = re.sub(r"(^|[ ,:])\.\./", r"\1", key)
+    return re.sub(r"\.fifo(?=$|[ ,:])", "", key)
+
+
+def model_keys(spec, model, statuses=("run",)):
+    """the trace keys the model predicts, with the join separators of the spec"""
+    procs = {p.name: p for p in spec.procs()}
+    out = []
+    for t in model["tasks"]:
+        if t["status"] not in statuses:
+            continue
+        p = procs.get(t["proc"])
+        k = t["proc"]
+        for port, kind, paths in t["ins"]:
+            sep = p.join.get(port, ",") if p else ","
+            k += " " + sep.join(paths)
+        for _, v in t["pars"]:
+            k += " " + v
+        out.append(k)
+    return out
 
 
 # ------------------------------------------------------------------ running the implementation
@@ -372,14 +397,41 @@ def compare_success(spec, model, impl):
         diff = {k: (real.get(k), want.get(k)) for k in set(real) | set(want) if real.get(k) != want.get(k)}
         problems.append(("files-differ", "file set / contents differ from the model (impl, model): %s" % str(dict(list(diff.items())[:4]))[:600]))
     ran = sorted(started_keys(impl["trace"]))
-    exp = sorted(t["key"] for t in model["tasks"] if t["status"] == "run")
+    exp = sorted(model_keys(spec, model))
     if ran != exp:
         problems.append(("tasks-differ", "executed tasks differ: only-impl=%s only-model=%s" % (
             [k for k in ran if k not in exp][:4] + [k for k in set(ran) if ran.count(k) > 1][:2], [k for k in exp if k not in ran][:4])))
     lo = leftovers(impl["fs"])
     if lo:
         problems.append(("leftovers", "temp dirs / FIFOs left after a completed run: %s" % lo[:4]))
+    problems += audit_command_problems(model, impl)
     return problems
+
+
+def audit_command_problems(model, impl):
+    """the command recorded next to every output of an executed shell task is the command the model formats"""
+    import json
+    problems = []
+    for t in model["tasks"]:
+        if t["status"] != "run" or t["command"] is None:
+            continue
+        for port, st, path in t["outs"]:
+            if st:
+                continue
+            v = impl["fs"].get(os.path.normpath(path) + ".audit.json")
+            if not v or v[0] != "f":
+                problems.append(("audit-missing", "no audit file next to %r" % path))
+                continue
+            try:
+                rec = json.loads(v[1])
+            except Exception as e:
+                problems.append(("audit-invalid-json", "%s.audit.json is not valid JSON: %s" % (path, e)))
+                continue
+            if rec.get("ProcessName") != t["proc"]:
+                problems.append(("audit-process", "%s.audit.json names process %r, expected %r" % (path, rec.get("ProcessName"), t["proc"])))
+            if "GOFUNC" not in t and rec.get("Command") != t["command"] and rec.get("Command") != "":
+                problems.append(("audit-command", "%s.audit.json records command %r, the model formats %r" % (path, (rec.get("Command") or "")[:200], t["command"][:200])))
+    return problems[:3]
 
 
 # ------------------------------------------------------------------ generic random workflows
